@@ -163,8 +163,9 @@ def sub_layout(ctx):
 def sub_weights(ctx):
     from grid.cubic import UniformGrid
 
-    shapes3 = [(2, 2, 2), (3, 4, 5), (6, 2, 3), (5, 5, 5), (8, 3, 2), (2, 7, 4)]
-    shapes2 = [(2, 2), (3, 5), (6, 2), (5, 5), (8, 3), (2, 7)]
+    # (the large shapes make the stated bound sum 1/M_i tight: 0.1 and 0.05)
+    shapes3 = [(2, 2, 2), (3, 4, 5), (6, 2, 3), (5, 5, 5), (8, 3, 2), (2, 7, 4), (30, 30, 30), (21, 40, 33)]
+    shapes2 = [(2, 2), (3, 5), (6, 2), (5, 5), (8, 3), (2, 7), (40, 40), (25, 64)]
     for scheme in ("Rectangle", "Trapezoid", "Fourier1", "Fourier2", "Alternative"):
         for dim, shapes, menu in ((3, shapes3, AXES3), (2, shapes2, AXES2)):
             for shape, aname in itertools.product(shapes, ("diag", "skew", "left", "swap")):
@@ -239,16 +240,29 @@ def sub_from_molecule(ctx):
         if _gt(abs(np.linalg.norm(g.axes[0]) - spacing), 1e-12):
             ctx.violation("from_molecule:spacing", f"{mname}: step {np.linalg.norm(g.axes[0])} != spacing {spacing}", case)
         if margin < ext - spacing - 1e-9:
-            sig = "box-centred-on-centre-of-charge" if _centred_on_charge(g, nums, c) else "other"
+            sig = "box-centred-on-centre-of-charge" if _centred_on_charge(g, nums, c, spacing, ext) else "other"
             ctx.violation(f"from_molecule:margin-too-small:{sig}",
                           f"{mname} (spacing={spacing}, extension={ext}, rotate={rot}): smallest distance of a nucleus to a "
                           f"box face is {margin:.3f} < extension - spacing = {ext - spacing:.3f}", case, margin=margin)
 
 
-def _centred_on_charge(g, nums, coords):
+def _centred_on_charge(g, nums, coords, spacing=None, ext=None):
+    """Signature of the recorded finding: the box is the documented one in SIZE (per axis ceil((span + 2 extension) /
+    spacing) nodes) but is centred on the centre of nuclear charge instead of on the span of the nuclei, and its last
+    node lies one step short of the upper face.  Any other box (fewer nodes, another centre) is a different defect."""
     centre = g.origin + 0.5 * (np.array(g.shape)) @ g.axes
     com = nums @ coords / nums.sum()
-    return bool(np.linalg.norm(centre - com) < 1e-9)
+    if np.linalg.norm(centre - com) >= 1e-9:
+        return False
+    if spacing is None:
+        return True
+    unit = g.axes / np.linalg.norm(g.axes, axis=1)[:, None]
+    # (the extents are measured along the COLUMNS of the eigenvector matrix while the grid axes are its ROWS -- the
+    # other half of the recorded finding for rotate=True; with rotate=False both are the identity)
+    u = (coords - com) @ unit
+    x = (u.max(axis=0) - u.min(axis=0) + 2.0 * ext) / spacing
+    ok = [int(s) in (int(np.ceil(v - 1e-9)), int(np.ceil(v + 1e-9))) for s, v in zip(g.shape, x)]
+    return all(ok)
 
 
 # ------------------------------------------------------------------------------ 5 closest_point
@@ -398,7 +412,9 @@ def _interp_grids():
     mk = lambda a: OneDGrid(np.array(a), np.ones(len(a)), (a[0], a[-1]))
     g2 = Tensor1DGrids(mk([-1.0, -0.7, -0.45, -0.1, 0.2, 0.4, 0.9]), mk([-0.5, -0.2, 0.0, 0.35, 0.6, 1.0, 1.3, 1.9]),
                        mk([0.0, 0.3, 0.5, 0.9, 1.0, 1.4, 1.6]))
-    return {"uniform": g1, "tensor-nonuniform": g2}
+    # fewer than 7 nodes along x (5) and y (6): see the recorded finding "short-axis"
+    g3 = UniformGrid(np.array([-0.6, -0.7, -1.2]), np.diag([0.3, 0.25, 0.35]), np.array([5, 6, 7]))
+    return {"uniform": g1, "tensor-nonuniform": g2, "uniform-567": g3}
 
 
 def _falling(a, nu):
@@ -420,7 +436,11 @@ def _interp_shard(arg):
     # interior evaluation points: inside the range of the interior nodes 1..n-3 used by the splines
     q = np.stack([rng.uniform(a[1], a[len(a) - 3], 5) for a in (x, y, z)], axis=1)
     q = np.vstack([q, [[x[2], y[3], z[2]]], [[0.5 * (x[1] + x[2]), y[2], 0.5 * (z[3] + z[4])]]])
+    # "arbitrary interior points" of the box: also the outer cells, beyond the interior nodes the splines are built on
+    q = np.vstack([q, [[0.6 * x[0] + 0.4 * x[1], y[2], 0.3 * z[-2] + 0.7 * z[-1]]], [[x[-1], 0.5 * (y[0] + y[1]), z[0]]]])
     p = g.points
+    # nodes the library's splines see along each axis: 1 .. n-3, i.e. n - 3 of them; k nodes hold degree min(k - 1, 3)
+    holds = [min(len(a) - 3 - 1, 3) for a in (x, y, z)]
     for (a, b, c) in monos:
         vals = p[:, 0] ** a * p[:, 1] ** b * p[:, 2] ** c
         keep = vals.copy()
@@ -441,6 +461,12 @@ def _interp_shard(arg):
             tol = 2e-9 * scale * (10.0 ** (nx + ny + nz) if nx + ny + nz else 1.0) ** 0.5
             if got.shape != ref.shape or np.any(_gt(np.abs(got - ref), tol)):
                 kind = "value" if (nx, ny, nz) == (0, 0, 0) else "derivative"
+                if got.shape == ref.shape and (a > holds[0] or b > holds[1] or c > holds[2]):
+                    # recorded finding: with fewer than 7 nodes along an axis the n - 3 interior nodes cannot hold a cubic
+                    res.violation("interp:cubic:short-axis:interior-node-splines-cannot-hold-the-degree",
+                                  f"{gname} (shape {[len(x), len(y), len(z)]}): x^{a} y^{b} z^{c} is not reproduced; the splines "
+                                  f"use the nodes 1..n-3 of each axis and hold degrees {holds} only", case)
+                    continue
                 res.violation(f"interp:cubic:{kind}-not-reproduced",
                               f"{gname}: d^({nx},{ny},{nz}) of x^{a} y^{b} z^{c}: max error "
                               f"{np.max(np.abs(got - ref)) if got.shape == ref.shape else 'shape'}", case)
@@ -469,6 +495,8 @@ def sub_interp_extra(ctx):
                       + sp.Rational(2, 5) * sz - sp.Rational(3, 10))
         for var, kw in ((sx, "nu_x"), (sy, "nu_y"), (sz, "nu_z")):
             for nu in range(0, 4):
+                if gname == "uniform-567":
+                    continue      # the log variant sits on the cubic splines: short axes are the recorded finding
                 ctx.count(len(q), section="interp-log")
                 case = {"sub": "interp-log", "grid": gname, "var": kw, "nu": nu}
                 f = sp.lambdify((sx, sy, sz), sp.diff(expr, var, nu), "numpy")
@@ -484,7 +512,25 @@ def sub_interp_extra(ctx):
                 if np.any(_gt(np.abs(got - ref), 1e-7 * (1 + np.abs(ref)) * 10.0**nu)):
                     ctx.violation("interp:log:not-reproduced", f"{gname}: d^{nu}/d{kw[-1]}^{nu} of exp(cubic) through the log variant: "
                                   f"max error {np.max(np.abs(got - ref)):.3e}", case)
-        # linear method reproduces trilinear functions
+        # linear method through the logarithmic variant: exp(trilinear) is reproduced (fixed in a4f487a: the
+        # logarithm itself was returned); the nearest method returns the same node value with and without use_log
+        T = lambda t: 0.3 * t[:, 0] * t[:, 1] * t[:, 2] - 0.2 * t[:, 0] * t[:, 1] + 0.5 * t[:, 2] - 0.1
+        qa = np.vstack([q, [[x[0], y[0], z[0]]], [[0.5 * (x[0] + x[1]), y[-1], 0.25 * z[-2] + 0.75 * z[-1]]]])
+        ctx.count(2 * len(qa), section="interp-linear")
+        pos = np.exp(T(p))
+        got = np.asarray(g.interpolate(qa, pos, use_log=True, method="linear"), dtype=float)
+        ctx.nontrivial(("lin-log", gname), section="interp-linear")
+        if got.shape != (len(qa),) or np.any(_gt(np.abs(got - np.exp(T(qa))), 1e-12 * (1 + np.exp(T(qa))))):
+            ctx.violation("interp:linear:log-variant-not-reproduced", f"{gname}: exp(trilinear) through use_log=True, method='linear': "
+                          f"max error {np.max(np.abs(got - np.exp(T(qa)))) if got.shape == (len(qa),) else 'shape'}",
+                          {"sub": "interp-linear", "grid": gname})
+        n0 = np.asarray(g.interpolate(qa, pos, method="nearest"), dtype=float)
+        n1 = np.asarray(g.interpolate(qa, pos, use_log=True, method="nearest"), dtype=float)
+        if n0.shape != n1.shape or np.any(_gt(np.abs(n0 - n1), 1e-12 * (1 + np.abs(n0)))) or not np.all(np.isin(np.round(n0, 12), np.round(pos, 12))):
+            ctx.violation("interp:nearest:log-variant-differs", f"{gname}: method='nearest' with and without use_log differ, or do not "
+                          f"return node values", {"sub": "interp-linear", "grid": gname})
+        # linear method reproduces trilinear functions (also in the outermost cells and on the faces)
+        q = qa
         for a, b, c in itertools.product((0, 1), repeat=3):
             ctx.count(len(q), section="interp-linear")
             vals = p[:, 0] ** a * p[:, 1] ** b * p[:, 2] ** c
@@ -512,7 +558,7 @@ def run(ctx):
         derivs = [(0, 0, 0), (1, 0, 0), (0, 1, 0), (0, 0, 1), (2, 0, 0), (0, 2, 0), (0, 0, 2), (3, 0, 0), (0, 3, 0), (0, 0, 3),
                   (1, 1, 0), (0, 1, 1), (2, 1, 0), (0, 3, 1), (1, 1, 1), (3, 3, 3)]
     jobs = []
-    for gname in ("uniform", "tensor-nonuniform"):
+    for gname in ("uniform", "tensor-nonuniform", "uniform-567"):
         for shard in lattice.chunks(monos, 16):
             jobs.append((gname, shard, derivs, ctx.seed))
     for res in lattice.pmap(_interp_shard, jobs, ctx.workers):
